@@ -317,3 +317,33 @@ M("C08", "alternative-right-first", CSF, "            if not self.left._is_false
 M("C08", "no-clear-next", CSF, "            yield OperationResult(output.bindings, self._is_false_, self)\n            self._conclusion_.clear()\n", "            yield OperationResult(output.bindings, self._is_false_, self)\n", "clear-after-emission")
 M("C08", "next-else-branch", CSF, "            if self.right_evaluated:\n                self.update_conclusion(output, self.right._conclusion_)", "            elif self.right_evaluated:\n                self.update_conclusion(output, self.right._conclusion_)", "both-branches")
 R("C08", "inline-helper", RLF, "    _replace_in_parent(prev_parent, current_node, new_conditions_root)\n    return new_conditions_root.right\n\n\ndef alternative(", "    new_conditions_root._parent_ = prev_parent\n    if isinstance(prev_parent, BinaryOperator):\n        if prev_parent.left is current_node:\n            prev_parent.left = new_conditions_root\n        else:\n            prev_parent.right = new_conditions_root\n    return new_conditions_root.right\n\n\ndef alternative(")
+
+# ------------------------------------------------------------------------------------- C01
+M("C01", "and-right-from-sources", SYM, "    def evaluate_right(self, left_value: OperationResult) -> Iterable[OperationResult]:\n        right_values = self.right._evaluate__(left_value.bindings, parent=self)", "    def evaluate_right(self, left_value: OperationResult) -> Iterable[OperationResult]:\n        right_values = self.right._evaluate__({}, parent=self)", "EP-THREAD")
+M("C01", "comparator-second-from-sources", SYM, "                second_operand._evaluate__(first_val.bindings, parent=self),", "                second_operand._evaluate__(sources, parent=self),", "EP-THREAD")
+M("C01", "selected-vars-from-sources", SYM, "        for var_val in var._evaluate__(bindings, parent=self):\n            yield from self._evaluate_selected_variables_from_(\n                index + 1,\n                {**var_val.bindings, var._id_: var_val[var._id_]},", "        for var_val in var._evaluate__(bindings, parent=self):\n            yield from self._evaluate_selected_variables_from_(\n                index + 1,\n                {**bindings, var._id_: var_val[var._id_]},", "EP-THREAD")
+M("C01", "predicate-args-from-sources", SYM, "            yield from self._generate_child_vars_values_from_(\n                remaining, var_val.bindings, {**values, name: var_val}\n            )", "            yield from self._generate_child_vars_values_from_(\n                remaining, bindings, {**values, name: var_val}\n            )", "EP-THREAD")
+M("C01", "union-generic-negation", SYM, "    def _invert_(self):\n        # The second pass reports the falsity of the right operand alone, which does not falsify the disjunction,\n        # so the generic negation (flip every result) is unsound here: negate by De Morgan instead.\n        return AND(self.left._invert_(), self.right._invert_())\n", "", "EP-NEG")
+M("C01", "union-de-morgan-wrong", SYM, "        return AND(self.left._invert_(), self.right._invert_())\n", "        return AND(self.left._invert_(), self.right)\n", "EP-NEG")
+M("C01", "forall-invert-not-dual", SYM, "        return Exists(self.variable, self.condition._invert_())", "        return Exists(self.variable, self.condition)", "EP-NEG")
+M("C01", "elseif-right-alone", SYM, "            if left_is_false:\n                yield from self.evaluate_right(left_value.bindings)", "            if left_is_false:\n                yield from self.evaluate_right(sources)", "EP-")
+M("C01", "no-truth-filter", SYM, "            yield from filter(\n                lambda v: v.is_true, self._child_._evaluate__(sources, parent=self)\n            )", "            yield from self._child_._evaluate__(sources, parent=self)", "EP-FILTER")
+M("C01", "filter-on-false", SYM, "            yield from filter(\n                lambda v: v.is_true, self._child_._evaluate__(sources, parent=self)\n            )", "            yield from filter(\n                lambda v: v.is_false, self._child_._evaluate__(sources, parent=self)\n            )", "EP-FILTER")
+M("C01", "exceptif-right-from-sources", CSF, "self.right._evaluate__(left_value.bindings, parent=self)", "self.right._evaluate__(sources, parent=self)", "EP-THREAD")
+M("C01", "and-false-left-drops-bindings", SYM, "            if self._is_false_:\n                yield OperationResult(left_value.bindings, self._is_false_, self)", "            if self._is_false_:\n                yield OperationResult(sources, self._is_false_, self)", "EP-NEG")
+R("C01", "and-inline-right", SYM, "                yield from self.evaluate_right(left_value)\n", "                for right_value in self.right._evaluate__(left_value.bindings, parent=self):\n                    self._is_false_ = right_value.is_false\n                    yield OperationResult(right_value.bindings, self._is_false_, self)\n")
+R("C01", "rename-left-value", SYM, "        for left_value in left_values:\n            self._is_false_ = left_value.is_false\n            if self._is_false_:\n                yield OperationResult(left_value.bindings, self._is_false_, self)\n            else:\n                yield from self.evaluate_right(left_value)", "        for lv in left_values:\n            self._is_false_ = lv.is_false\n            if self._is_false_:\n                yield OperationResult(lv.bindings, self._is_false_, self)\n            else:\n                yield from self.evaluate_right(lv)")
+R("C01", "filter-as-genexp", SYM, "            yield from filter(\n                lambda v: v.is_true, self._child_._evaluate__(sources, parent=self)\n            )", "            for v in self._child_._evaluate__(sources, parent=self):\n                if v.is_true:\n                    yield v")
+
+# ------------------------------------------------------------------------------------- C02
+M("C02", "variable-no-bound-check", SYM, "        if self._id_ in sources:\n            if (\n                isinstance(self._parent_, LogicalBinaryOperator)\n                or self is self._conditions_root_\n            ):\n                self._is_false_ = not bool(sources[self._id_])\n            yield OperationResult(sources, not bool(sources[self._id_]), self)\n        elif self._domain_:", "        if self._domain_:", "EP-BOUND")
+M("C02", "domainmapping-no-bound-check", SYM, "        if self._id_ in sources:\n            yield OperationResult(sources, self._is_false_, self)\n            return\n\n        yield from (\n            self._build_operation_result_and_update_truth_value_(", "        yield from (\n            self._build_operation_result_and_update_truth_value_(", "EP-BOUND")
+M("C02", "comparator-bound-falls-through", SYM, "        if self._id_ in sources:\n            yield OperationResult(sources, self._is_false_, self)\n            return\n\n        first_operand, second_operand", "        if self._id_ in sources:\n            yield OperationResult(sources, self._is_false_, self)\n\n        first_operand, second_operand", "EP-BOUND")
+M("C02", "quantifier-bound-yields-twice", SYM, "        if self._id_ in sources:\n            yield OperationResult(sources, False, self)\n            return\n        result_count = 0", "        if self._id_ in sources:\n            yield OperationResult(sources, False, self)\n            yield OperationResult(sources, False, self)\n            return\n        result_count = 0", "bound-passes-through-once")
+M("C02", "and-right-always", SYM, "            if self._is_false_:\n                yield OperationResult(left_value.bindings, self._is_false_, self)\n            else:\n                yield from self.evaluate_right(left_value)", "            if self._is_false_:\n                yield OperationResult(left_value.bindings, self._is_false_, self)\n            yield from self.evaluate_right(left_value)", "AND#right-gated")
+M("C02", "and-false-left-twice", SYM, "            if self._is_false_:\n                yield OperationResult(left_value.bindings, self._is_false_, self)\n            else:", "            if self._is_false_:\n                yield OperationResult(left_value.bindings, self._is_false_, self)\n                yield OperationResult(left_value.bindings, self._is_false_, self)\n            else:", "decided-left-emitted-once")
+M("C02", "elseif-right-after-true-left", SYM, "            else:\n                self._is_false_ = False\n                yield OperationResult(left_value.bindings, self._is_false_, self)\n\n    def evaluate_right(", "            else:\n                self._is_false_ = False\n                yield OperationResult(left_value.bindings, self._is_false_, self)\n                yield from self.evaluate_right(left_value.bindings)\n\n    def evaluate_right(", "right-gated")
+M("C02", "elseif-second-pass", SYM, "        sources = sources or {}\n        self._eval_parent_ = parent\n        yield from self.evaluate_left(sources)\n\n\n@dataclass(eq=False, repr=False)\nclass QuantifiedConditional", "        sources = sources or {}\n        self._eval_parent_ = parent\n        yield from self.evaluate_left(sources)\n        yield from self.evaluate_right(sources)\n\n\n@dataclass(eq=False, repr=False)\nclass QuantifiedConditional", "ElseIf#no-other-right-evaluation")
+M("C02", "or-gate-inverted", SYM, "            if left_is_false:\n                yield from self.evaluate_right(left_value.bindings)\n            else:", "            if not left_is_false:\n                yield from self.evaluate_right(left_value.bindings)\n            else:", "right-gated")
+M("C02", "and-left-twice", SYM, "        left_values = self.left._evaluate__(sources, parent=self)\n        for left_value in left_values:\n            self._is_false_ = left_value.is_false\n            if self._is_false_:", "        left_values = itertools.chain(self.left._evaluate__(sources, parent=self), self.left._evaluate__(sources, parent=self))\n        for left_value in left_values:\n            self._is_false_ = left_value.is_false\n            if self._is_false_:", "AND#left-once")
+R("C02", "bound-check-early-return-form", SYM, "        if self._id_ in sources:\n            yield OperationResult(sources, False, self)\n            return\n        result_count = 0", "        if self._id_ in sources:\n            yield OperationResult(sources, False, self)\n            return\n        else:\n            pass\n        result_count = 0")
